@@ -123,6 +123,7 @@ pub static mut SEEN_N: u32 = 0;
 pub static mut SEEN_BLOCK: usize = 0;
 pub static mut SEEN_RESULTS: usize = 0;
 pub static mut STATUS: i32 = 2;
+pub static mut WIDE_ANSWER: u64 = 0;
 pub mod mockhost {
     use super::*;
     pub unsafe fn verif_asub_imp___async_lower_greet(p: *mut u8, len: usize, results: *mut u8) -> i32 {
@@ -143,6 +144,30 @@ pub mod mockhost {
             SEEN_B = (p1, l1, l1 == 0 || is_live(p1));
             SEEN_N = block.add(4 * P).cast::<u32>().read();
             SEEN_RESULTS = results as usize;
+            STATUS
+        }
+    }
+    pub unsafe fn verif_asub_imp___async_lower_wide(block: *mut u8, results: *mut u8) -> i32 {
+        unsafe {
+            CALLS += 1;
+            SEEN_BLOCK = block as usize;
+            SEEN_RESULTS = results as usize;
+            SEEN_N = block.add(16).cast::<u32>().read(); // the fifth u32
+            if STATUS == 2 {
+                results.cast::<u64>().write(WIDE_ANSWER); // the host stores the result at the pointer it was given (it traps if that is misaligned)
+            }
+            STATUS
+        }
+    }
+    pub unsafe fn verif_asub_imp___async_lower_narrow(block: *mut u8, results: *mut u8) -> i32 {
+        unsafe {
+            CALLS += 1;
+            SEEN_BLOCK = block as usize;
+            SEEN_RESULTS = results as usize;
+            SEEN_N = block.add(4).cast::<u8>().read() as u32; // the fifth u8
+            if STATUS == 2 {
+                results.cast::<u32>().write(WIDE_ANSWER as u32);
+            }
             STATUS
         }
     }
@@ -339,4 +364,46 @@ mod proofs {
     // the list length is fixed per harness (a symbolic length makes `Vec<Entry>::into_iter` and its drop glue too expensive for CBMC here)
     ledger_proof! { fn c08_import_callbacks_list_of_records_empty() { list_of_records(0); } }
     ledger_proof! { fn c08_import_callbacks_list_of_records_one() { list_of_records(1); } }
+
+    // ---- wide(u32 x5) -> u64 and narrow(u8 x5) -> u32: the result is more strictly aligned than the parameter record
+    #[kani::proof]
+    pub fn c08_import_callbacks_result_slot_aligned_after_parameter_record() {
+        let wide: bool = kani::any();
+        let vals: [u32; 5] = kani::any();
+        let ans: u64 = kani::any();
+        unsafe {
+            WIDE_ANSWER = ans;
+            if wide {
+                use verif::asub::imp::verif_subtask_wide::_MySubtask;
+                let mut t = _MySubtask { _unused: core::marker::PhantomData };
+                let layout = t.abi_layout();
+                let off = t.results_offset();
+                kani::assert(off >= 20 && off % 8 == 0, "the result slot starts after the parameter record (5 x u32) at an offset aligned for u64");
+                kani::assert(layout.size() >= off + 8 && layout.align() >= 8, "the block holds the result and is aligned for it");
+                let block = alloc::alloc::alloc_zeroed(layout);
+                kani::assume(!block.is_null());
+                let lower = t.params_lower((vals[0], vals[1], vals[2], vals[3], vals[4]), block);
+                let code = t.call_import(lower, block.add(off));
+                kani::assert(CALLS == 1 && code == 2 && SEEN_BLOCK == block as usize && SEEN_N == vals[4], "the core call receives the parameter record, each field at its canonical offset");
+                kani::assert(SEEN_RESULTS == block as usize + off && SEEN_RESULTS % 8 == 0, "the result pointer handed to the host is aligned for the result type (a conforming host traps otherwise)");
+                kani::assert(t.results_lift(block.add(off)) == ans, "the result is lifted from where the host stored it");
+            } else {
+                use verif::asub::imp::verif_subtask_narrow::_MySubtask;
+                let mut t = _MySubtask { _unused: core::marker::PhantomData };
+                let layout = t.abi_layout();
+                let off = t.results_offset();
+                kani::assert(off >= 5 && off % 4 == 0, "the result slot starts after the parameter record (5 x u8) at an offset aligned for u32");
+                kani::assert(layout.size() >= off + 4 && layout.align() >= 4, "the block holds the result and is aligned for it");
+                let block = alloc::alloc::alloc_zeroed(layout);
+                kani::assume(!block.is_null());
+                let lower = t.params_lower((vals[0] as u8, vals[1] as u8, vals[2] as u8, vals[3] as u8, vals[4] as u8), block);
+                let code = t.call_import(lower, block.add(off));
+                kani::assert(CALLS == 1 && code == 2 && SEEN_BLOCK == block as usize && SEEN_N == (vals[4] as u8) as u32, "the core call receives the parameter record, each field at its canonical offset");
+                kani::assert(SEEN_RESULTS == block as usize + off && SEEN_RESULTS % 4 == 0, "the result pointer handed to the host is aligned for the result type");
+                kani::assert(t.results_lift(block.add(off)) == ans as u32, "the result is lifted from where the host stored it");
+            }
+        }
+        kani::cover!(wide);
+        kani::cover!(!wide);
+    }
 }
